@@ -25,6 +25,6 @@ For each change write into /tmp/wt-out/{pid}/ :
   - patch1.diff (and patch2.diff): output of `git -C /tmp/wt/{pid} diff` for that change alone (apply-able with `git apply` on a clean tree),
   - demo1.py (and demo2.py): a small standalone program run as `cd <tree> && /venv/bin/python demo1.py`-style (it must locate pennylane from the current working directory) that exits with status 0 on the UNCHANGED tree and a non-zero status (assertion failure) on the changed tree, demonstrating the property violation through public behaviour,
   - notes1.md (and notes2.md): 5-10 lines: what the change is, why it breaks the property, what it needs in order to manifest, the exact commands you ran and their results (demo on clean tree, demo on patched tree, pinned-suite counts).
-Verify everything yourself: demo passes on the clean tree (`git stash` or `git checkout -- .` to get it clean), fails with the patch. Leave the worktree CLEAN (git checkout -- .) when you finish; the patches live only in /tmp/wt-out/{pid}/.
+Verify everything yourself: demo passes on the clean tree, fails with the patch. NEVER use `git stash` (the stash is shared by all worktrees of the repository and other agents work in sibling worktrees): save with `git diff > /tmp/wt-out/{pid}/patchN.diff`, clean with `git checkout -- .`, re-apply with `git apply`, and re-check `git diff` before trusting any clean/patched run. Leave the worktree CLEAN (git checkout -- .) when you finish; the patches live only in /tmp/wt-out/{pid}/.
 
 Keep your final answer short: for each patch one line saying which file/function it touches and whether all three verifications succeeded.""")
